@@ -63,7 +63,7 @@ func genLockFactsImpl(repo string, root *pkg) {
 	bl := func(name string, v bool, doc string) {
 		fmt.Fprintf(&b, "/-- %s -/\ndef %s : Bool := %v\n", doc, name, v)
 	}
-	bl("listStateOnlyUnderLock", f.listStateOnlyUnderLock, "every function touching eventList.seqs/events/lastSeq/hasLast is an eventList method that starts with `l.Lock(); defer l.Unlock()` or is called only from such methods")
+	bl("listStateOnlyUnderLock", f.listStateOnlyUnderLock, "every function touching a field of eventList (other than the embedded mutex) is an eventList method that starts with `l.Lock(); defer l.Unlock()` or is called only from such methods")
 	bl("closedOnlyAtomic", f.closedOnlyAtomic, "Reassembler.closed is only ever used through a sync/atomic operation: atomic.F(&r.closed, ..), a method of a sync/atomic type, or a method of a local wrapper type that is a single such operation on the wrapper's own field")
 	bl("closedSingleCasGuardsClear", f.closedSingleCasGuardsClear, "the only write to closed is one compare-and-swap from unset (0/false) to set (1/true), in Reassembler.Close, whose result is the condition of the `if` whose body holds every eventList.Clear call")
 	bl("noCalloutUnderLock", f.noCalloutUnderLock, "no r.stream call, interface-method call or verifYield inside eventList/event methods; the mutex is taken only in the Lock/defer Unlock prologue; locked methods do not call locked methods")
@@ -162,32 +162,23 @@ func computeLockFacts(root *pkg) *lockFacts {
 	if !ok {
 		return allFalse("struct Reassembler not found")
 	}
-	// the guarded fields
+	// the guarded fields: every field of eventList other than the embedded mutex (whatever they are
+	// called and however the table is represented)
 	guarded := map[types.Object]string{}
 	hasMutex := false
 	for i := 0; i < elStruct.NumFields(); i++ {
 		fl := elStruct.Field(i)
-		switch fl.Name() {
-		case "seqs", "events", "lastSeq", "hasLast":
-			guarded[fl] = fl.Name()
-		}
 		if fl.Embedded() && fl.Type().String() == "sync.Mutex" {
 			hasMutex = true
+			continue
 		}
+		guarded[fl] = fl.Name()
 	}
 	if !hasMutex {
 		return allFalse("eventList does not embed sync.Mutex")
 	}
-	for _, need := range []string{"seqs", "events", "lastSeq"} {
-		found := false
-		for _, n := range guarded {
-			if n == need {
-				found = true
-			}
-		}
-		if !found {
-			return allFalse("eventList has no field %s", need)
-		}
+	if len(guarded) == 0 {
+		return allFalse("eventList has no fields besides the mutex")
 	}
 	var closedVar, streamVar types.Object
 	for i := 0; i < rsStruct.NumFields(); i++ {
